@@ -250,7 +250,7 @@ def _worker(task):
                 if version == (2, 0) and any(f[0] == 'Operation Policy Name' for f in filters):
                     continue
                 for user, groups in REQUESTERS:
-                    paging = len(filters) <= 1 and (tier == 'thorough' or version == (1, 2))
+                    paging = len(filters) <= 1 and (tier == 'thorough' or version == (1, 4))
                     check_locate(w, objs, pol, filters, user, groups, version, part, family, paging)
         if W.db_key(w.dump()) != key0:
             part.violation("locate-changes-store", "the store changed during Locate requests", {})
@@ -265,7 +265,7 @@ def _worker(task):
 def run(tier, seed):
     rep = Reporter('C14', 'model_checking', tier, seed)
     conjs = conjunctions(tier)
-    versions = [(1, 2), (2, 0)]
+    versions = [(1, 4), (2, 0)]
     tasks = []
     for fam in FAMILIES:
         k = 16 if fam != 'empty' else 1
@@ -288,7 +288,7 @@ def run(tier, seed):
                     "and gaps in initial dates, mixed types/owners/policies/states); transitions = "
                     "Locate requests: all ordered conjunctions of 0..2 filters from the menu, "
                     "triples containing a date range in every position (thorough: more triples), x 3 "
-                    "requesters x KMIP 1.2/2.0; for conjunctions of <= 1 filter all 35 "
+                    "requesters x KMIP 1.4/2.0; for conjunctions of <= 1 filter all 35 "
                     "(offset, maximum) pairs and page-wise partitioning",
     ), assumptions=[
         "ties in initial date may come in any order; paging is compared with the unpaged answer of "
